@@ -50,6 +50,7 @@ def kani_cmd(crate, flags, harness_names, jobs, timeout_s, export_json, extra=()
         cmd += ["--harness-timeout", "%ds" % timeout_s]
     if export_json:
         cmd += ["--export-json", export_json]
+    cmd += ["--exact"]
     cmd += list(extra)
     for n in harness_names:
         cmd += ["--harness", n]
@@ -127,8 +128,19 @@ def finish(hres):
 
 
 
+def qualified(h):
+    """Fully qualified harness name as Kani prints it (for --exact)."""
+    rel = h.src[len(CRATES[h.crate]["dir"]) + len("/src/"):]
+    rel = rel[:-3] if rel.endswith(".rs") else rel
+    parts = [p for p in rel.split("/") if p]
+    if parts and parts[-1] in ("mod", "lib"):
+        parts = parts[:-1]
+    modname = "aws_s2n_quic_verif_" + re.sub(r"\W", "_", os.path.splitext(os.path.basename(h.file))[0])
+    return "::".join(parts + [modname, h.name])
+
+
 def run_group(scratch, crate, flags, harnesses, jobs, outdir):
-    names = [h.name for h in harnesses]
+    names = [qualified(h) for h in harnesses]
     tmo = max(h.timeout for h in harnesses)
     mem = max(h.mem for h in harnesses)
     tag = "%s-%s-%d" % (crate, "_".join(flags) or "std", os.getpid())
@@ -231,7 +243,7 @@ VEC_RE = re.compile(r"vec!\[([0-9,\s]*)\]")
 def concrete_playback(scratch, h, outdir, prefer=()):
     """Re-runs one failing harness with -Z concrete-playback and returns the list of byte vectors
     (one per kani::any() call, in call order) or None."""
-    cmd = kani_cmd(h.crate, h.flags, [h.name], 0, h.timeout, None,
+    cmd = kani_cmd(h.crate, h.flags, [qualified(h)], 0, h.timeout, None,
                    extra=["-Z", "concrete-playback", "--concrete-playback", "print"])
     cwd = os.path.join(scratch.repo, CRATES[h.crate]["dir"])
     rc, out, wall = run(cmd, cwd=cwd, env={"RUSTFLAGS": RUSTFLAGS}, timeout=h.timeout * 2 + 600, mem_gb=h.mem)
